@@ -393,3 +393,51 @@ T('k18_template_named_first', ['C18'], (META, "        self.loaded_template = ar
 B('k18_template_from_argument', ['C18'], 'R18.d', (META, "    def __init__(self):\n        arf = AshesRenderFactory(_CUR_PATH, keep_whitespace=False)\n        self.loaded_template = arf.env.load(self.template_path)",
                                                    "    def __init__(self, template=None):\n        arf = AshesRenderFactory(_CUR_PATH, keep_whitespace=False)\n        self.loaded_template = arf.env.load(template or 'meta_raw.html')"))
 B('k18_other_main_template', ['C18'], 'R18.d', (META, "        self._main_page_render = self._arf('meta_base.html')", "        self._main_page_render = self._arf('meta_proc_section.html')"))
+T('k18_two_comprehensions_same_name', ['C18'], (META, GRI, '''def get_resource_info(_application):
+    resources = _application.resources
+    shown = dict((key, '[REDACTED]' if 'secret' in key else _trunc(repr(resources[key])))
+                 for key in resources)
+    return [{'key': key, 'value': shown[key]} for key in shown]
+'''))
+B('k18_lookup_key_rebound_in_loop', ['C18'], 'R18.a', (META, GRI, '''def get_resource_info(_application):
+    resources = _application.resources
+    ret = []
+    for key in resources:
+        val = resources[key]
+        key = key[:40]
+        ret.append({'key': key, 'value': '[REDACTED]' if 'secret' in key else _trunc(repr(val))})
+    return ret
+'''))
+B('k18_exception_indexed_in_handler', ['C18'], 'R18.c', (META, "                peri_ctx = {'exc_content': repr(e)}", "                peri_ctx = {'exc_content': '%s: %s' % (type(e).__name__, e.args[0])}"))
+T('k18_generator_rows_named_test', ['C18'], (META, GRI, '''def _iter_rows(resources):
+    for name, obj in resources.items():
+        is_secret = 'secret' in name
+        yield {'key': name,
+               'value': '[REDACTED]' if is_secret else _trunc(repr(obj))}
+
+
+def get_resource_info(_application):
+    return list(_iter_rows(_application.resources))
+'''))
+B('k18_named_test_assigned_after_use', ['C18'], 'R18.a', (META, GRI, '''def get_resource_info(_application):
+    ret = []
+    is_secret = False
+    for name, obj in _application.resources.items():
+        ret.append({'key': name, 'value': '[REDACTED]' if is_secret else _trunc(repr(obj))})
+        is_secret = 'secret' in name
+    return ret
+'''))
+T('k18_mw_rows_generator_helper', ['C18'], (META, GMI, '''def _iter_mw_rows(middlewares):
+    for _i, mw in enumerate(middlewares):
+        row = {}
+        row['type_name'] = mw.__class__.__name__
+        row['provides'], row['requires'] = mw.provides, mw.requires
+        row['repr'] = '%r' % (mw,)
+        yield row
+
+
+def get_mw_infos(_application):
+    return list(_iter_mw_rows(_application.middlewares))
+'''))
+B('k18_repr_reads_dynamic_attribute', ['C18'], 'R18.b', (CK, "        return ('%s(arg_name=%r, cookie_name=%r)'\n                % (cn, self.arg_name, self.cookie_name))",
+                                                         "        shown = ['%s=%r' % (n, getattr(self, n, None)) for n in ('arg_name', 'cookie_name') + tuple(self.__init__.__code__.co_varnames[1:3])]\n        return '%s(%s)' % (cn, ', '.join(shown))"))
